@@ -50,7 +50,9 @@ def run_tlc(module, cfg=None, workers=8, env=None, extra=(), timeout=3600,
     """Run TLC on spec/<module>.tla with spec/<cfg>.cfg. Returns dict."""
     meta = _scratch()
     cfgpath = os.path.join(SPEC_DIR, (cfg or module) + ".cfg")
-    cmd = _java(heap) + ["tlc2.TLC", "-workers", str(workers), "-metadir", meta,
+    jv = _java(heap)
+    jv.insert(1, "-Djava.io.tmpdir=" + meta)      # TLC leaves an empty tlc-* directory per run there
+    cmd = jv + ["tlc2.TLC", "-workers", str(workers), "-metadir", meta,
                          "-noGenerateSpecTE", "-config", cfgpath]
     if not deadlock:
         cmd += ["-deadlock"]
